@@ -217,5 +217,59 @@ class Figures(Stream):
         return ["mode=" + case["mode"]]
 
 
+LETTERS = {"C": 0, "D": 2, "E": 4, "F": 5, "G": 7, "A": 9, "B": 11}
+
+
+class KeyText(Stream):
+    """the key as it is written in the annotation (inline 'eb:' or a 'Tonality: eb' header): every letter x {natural, sharp, flat}
+    x {major = upper case, minor = lower case}, a sample of diatonic figures read in that key against the textbook pitch classes"""
+    name = "key_text"
+    checker = None
+    pair = "property oracle on ScoreFormatter(text).parse() (CurrentTonality.init, TonalityLine) vs textbook pitch classes in the written key"
+    quick, thorough = 700, 700
+
+    def gen(self, rng, n):
+        cases = figure_cases()
+        for letter, base in LETTERS.items():
+            for acc, sh in (("", 0), ("#", 1), ("b", -1), ("-", -1)):
+                for minor in (False, True):
+                    mode = "minor" if minor else "major"
+                    pool = [c for c in cases if c[0] == mode]
+                    for header in (False, True):
+                        for _ in range(3 if header else 4):
+                            _, fig, pcs, inv = rng.choice(pool)
+                            yield {"key_text": (letter.lower() if minor else letter) + acc, "key": (base + sh) % 12, "mode": mode, "fig": fig,
+                                   "pcs": pcs, "inv": inv, "header": header}
+
+    def impl(self, case):
+        from musiclang.analyze.score_formatter import ScoreFormatter
+        def f():
+            if case["header"]:
+                text = f"Time Signature: 4/4\nTonality: {case['key_text']}\nm1 {case['fig']}"
+            else:
+                text = f"Time Signature: 4/4\nm1 {case['key_text']}: {case['fig']}"
+            sc = ScoreFormatter(text).parse()
+            c = sc.chords[0]
+            return {"n": len(sc.chords), "pcs": [int(p) % 12 for p in c.chord_extension_pitches], "bass": int(c.bass_pitch) % 12}
+        return mlang.guarded(f)
+
+    def spec(self, case, r):
+        where = "header" if case["header"] else "inline"
+        if mlang.is_exc(r):
+            return {"sig": f"key-text-raises:{where}", "msg": f"{case['key_text']}: {r}"}
+        want = sorted((p + case["key"]) % 12 for p in case["pcs"])
+        bass = (case["pcs"][case["inv"]] + case["key"]) % 12
+        if r["n"] != 1 or sorted(r["pcs"]) != want or r["bass"] != bass:
+            return {"sig": f"key-text:{where}:{case['mode']}", "msg": f"{case['fig']} in the key written {case['key_text']!r}: pitch classes {sorted(r['pcs'])} bass {r['bass']}, "
+                                                                     f"standard reading {want} bass {bass}"}
+        return None
+
+    def nontrivial(self, case, r):
+        return len(case["key_text"]) > 1 or case["key_text"] in "bB"
+
+    def hist_keys(self, case, r):
+        return ["key=" + case["key_text"]]
+
+
 def streams():
-    return [Clock(), Figures()]
+    return [Clock(), Figures(), KeyText()]
